@@ -307,7 +307,46 @@ def encoder_config(lang) -> dict:
     return cfg
 
 
+def yaml_duplicate_keys(text: str):
+    """Duplicate mapping keys in a YAML text (PyYAML silently keeps the last one).  Returns [(path, key, line)]."""
+    import yaml
+    root = yaml.compose(text, Loader=yaml.SafeLoader)
+    dups, seen_nodes = [], set()
+
+    def walk(node, path):
+        if id(node) in seen_nodes:      # anchors / aliases share nodes
+            return
+        seen_nodes.add(id(node))
+        if isinstance(node, yaml.MappingNode):
+            keys = {}
+            for k, v in node.value:
+                kk = (k.tag, k.value) if isinstance(k, yaml.ScalarNode) else None
+                if kk is not None and k.tag != "tag:yaml.org,2002:merge":
+                    if kk in keys:
+                        dups.append(("/".join(path), k.value, k.start_mark.line + 1))
+                    keys[kk] = True
+                walk(v, path + [k.value if isinstance(k, yaml.ScalarNode) else "?"])
+        elif isinstance(node, yaml.SequenceNode):
+            for i, v in enumerate(node.value):
+                walk(v, path + [str(i)])
+
+    if root is not None:
+        walk(root, [])
+    return dups
+
+
+def check_properties_yaml():
+    """The defaults file the real configuration is loaded from must not contain duplicate keys: the loader would drop
+    all but the last silently and the translator, which reads the encoder objects, would regenerate the smaller table."""
+    p = pathlib.Path(repo_src()) / "nunavut" / "lang" / "properties.yaml"
+    dups = yaml_duplicate_keys(p.read_text())
+    if dups:
+        raise Unsupported("properties.yaml has duplicate mapping keys (all but the last are dropped by the loader): "
+                          + "; ".join(f"{path}: {key!r} (line {line})" for path, key, line in dups[:10]))
+
+
 def all_configs() -> dict:
+    check_properties_yaml()
     return {name: encoder_config(build_language(name)) for name in LANGS}
 
 
